@@ -102,6 +102,17 @@ def is_g(t):
     return t[-1] == 'G'
 
 
+def _alt_opens_with_dot(alt):
+    if not alt:
+        return False
+    t = alt[0]
+    if t[0] in LITS:
+        return t[1] == '.'
+    if t[0] == 'grp':
+        return any(_alt_opens_with_dot(a) for a in t[2])
+    return False
+
+
 class Sem:
     """Segment (or whole-name) matcher.
 
@@ -138,11 +149,19 @@ class Sem:
                 return True
             if self.pathseg and s[i:] in ('.', '..'):
                 return True
-        if self.dot or i != 0 or not self.n or s[0] != '.':
+        if i != 0 or not self.n or s[0] != '.':
             return False
-        if self.qa and not is_g(t):
-            return False
-        return True
+        if self.qa:
+            # defect model A: only syntactically first tokens carry a guard; in path mode that guard also refuses to
+            # start a `.`/`..` segment whatever DOTGLOB says
+            if not is_g(t):
+                return False
+            if 'D' in self.quirks and t[0] == 'grp' and t[1] == '!' and any(_alt_opens_with_dot(a) for a in t[2]):
+                # defect model D: a leading `!(...)` that lists a written dot is left unguarded (DOTGLOB, no NODOTDIR)
+                return False
+            if self.pathseg and s in ('.', '..'):
+                return True
+        return not self.dot
 
     def ends(self, toks, i):
         """Set of j such that toks can consume s[i:j]."""
@@ -325,7 +344,7 @@ def nullable(toks):
 def seg3(seg, name, dot, icase, nodotdir, quirks=None, pathseg=True):
     """Three-valued match of one pattern segment against one non-empty path segment."""
     seg = norm_seg(seg)
-    if quirks:
+    if quirks and (name not in ('.', '..') or 'A' in quirks):
         if name in ('.', '..') and nodotdir and seg and seg[0][0] in LITS and seg[0][1] == '.':
             lt = literal_text(seg)
             return lt is not None and lit_str_eq(lt, name, icase)
@@ -403,7 +422,7 @@ def path_match3(toks, path, ps, quirks=None):
     if p_trail and not last_gs and not path.endswith('/'):
         return False
     mbgs = bool(quirks) and 'MBGS' in quirks
-    segq = frozenset(q for q in (quirks or ()) if q in 'AB') or None
+    segq = frozenset(q for q in (quirks or ()) if q in ('A', 'B', 'D', 'NL')) or None
     nseg, nparts = len(segs), len(parts)
 
     def run(may):
@@ -451,7 +470,9 @@ def path_match3(toks, path, ps, quirks=None):
         return go(0, 0)
 
     if quirks:
-        return run(False)
+        # defect models are three-valued too: inside a DON'T-CARE zone either answer is explained
+        a, b = run(True), run(False)
+        return a if a == b else None
     if not run(True):
         return False
     return True if run(False) else None
